@@ -844,7 +844,7 @@ class C01(Check):
         stalled past its wall-clock watchdog on a loaded machine, was killed from outside, lost output) and is
         no failing input.  Its observation is replaced by the repeated one."""
         fails = self.judge_once(cases, impl_obs, spec_obs)
-        if fails:
+        if fails and not self._in_shrink:
             fails.sort(key=lambda f: (len(cases[f[0]]), f[0]))
             chosen = fails[:self.CONFIRM_MAX]
             again, _ = self.run_impl([cases[i] for (i, _, _) in chosen], tag='cfm_impl', per_case_timeout=2 * self.per_case_timeout)
@@ -892,7 +892,7 @@ class C01(Check):
     RETRY_MAX = 6
 
     def run_impl(self, cases, tag='impl', per_case_timeout=None):
-        # chunks of 100 cases; every crash / watchdog timeout restarts the harness.  After 150 crashes or 30 timeouts
+        # chunks of 25 cases (the caps below are looked at between chunks); every crash / watchdog timeout restarts the harness.  After 150 crashes or 30 timeouts
         # (30 x per_case_timeout = 90 s) over the whole run the remaining cases are not run (`! notrun`, dropped by
         # the framework): the failing inputs are there by then, and a tree on which everything crashes or hangs ends
         # the check within minutes.
@@ -903,8 +903,8 @@ class C01(Check):
         res, crashes = [], {}
         pct = per_case_timeout or self.per_case_timeout
         bounded = not (tag.startswith('shr_') or tag.startswith('rel_'))
-        for off in range(0, len(cases), 100):
-            chunk = cases[off:off + 100]
+        for off in range(0, len(cases), 25):
+            chunk = cases[off:off + 25]
             if bounded and (self.crash_total >= 150 or self.timeout_total >= 30):
                 res += [['! notrun'] for _ in chunk]
                 continue
@@ -936,6 +936,7 @@ class C01(Check):
         return res, crashes
 
     shrink_calls = 0
+    _in_shrink = False
     shr_timeouts = 0
 
     def shrink(self, case, pred, budget=400):
@@ -947,7 +948,15 @@ class C01(Check):
                 return False
             self.shrink_calls += 1
             return pred(c)
-        return Check.shrink(self, case, counted, budget)
+        self._in_shrink = True          # candidates are judged once while shrinking ...
+        try:
+            small = Check.shrink(self, case, counted, budget)
+        finally:
+            self._in_shrink = False
+        if small != case and not pred(small):   # ... and the result has to fail again, with repetition (judge)
+            vf.log('[C01] the shrunk input did not fail again: reporting the confirmed one')
+            return case
+        return small
 
     # ---- adversarial search for a history that breaks the depth / cost bound -------------------------------------
     @staticmethod
